@@ -15,7 +15,7 @@ BufCfgs ==
        arrays |-> 4, maxIngest |-> 1, hotCap |-> hc, coldCap |-> cc, hotRate |-> hr, coldRate |-> cr,
        order |-> <<"a", "b">>, obs |-> ("a" :> Ob(sa) @@ "b" :> Ob(sb)),
        alg |-> "queue", parts |-> 1, minPer |-> 1, split |-> EmptyFn, extra |-> EmptyFn,
-       plan |-> EmptyFn, advRounds |-> 0, perm |-> {}, canon |-> TRUE, seg |-> FALSE, api |-> FALSE ] :
+       plan |-> EmptyFn, advRounds |-> 0, advProv |-> 0, perm |-> {}, canon |-> TRUE, seg |-> FALSE, api |-> FALSE ] :
        sa \in 1..6, sb \in {2, 5}, hr \in 1..3, cr \in 1..3, hc \in {7, 12}, cc \in {4, 8, 12}}
 
 BState == [ApiInit EXCEPT !.cl = InitState.cl] @@
